@@ -127,3 +127,54 @@ Proof.
     split; (split; [apply new_voteset_inv | intros K bv Lk; cbn in Lk; discriminate]).
   - vm_compute. reflexivity.
 Qed.
+
+(* ---------------------------------------------------------------- a second network: round 1, every machine LOCKED on
+   the proposed block since round 0 (no decision in round 0: only two precommits for it arrived),
+   the proposer re-proposes it with POL round 0: the locked / POL-round path of the theorems. *)
+Definition ex2_env (i : Z) : env :=
+  {| e_vals := ex_vals; e_me := Some i; e_proposer := fun _ r => if r =? 0 then 0 else 1; e_skip_timeout_commit := false;
+     e_initial_height := 1 |}.
+Definition ex2_vote (ty : N) (x : blockid) (i : Z) : input :=
+  IVote {| v_type := ty; v_height := 1; v_round := 0; v_bid := x; v_idx := i; v_addr := N.of_nat (11 + Z.to_nat i);
+           v_sig := (500 + Z.to_N i * 10 + ty)%N; v_ok := true |} 9%N.
+Definition ex2_B : blockid := Some (7%N, (1%N, 70%N)).
+Definition ex2_prefix : list input :=
+  [ ITimeout {| ti_height := 1; ti_round := 0; ti_step := SNewHeight |};
+    IProposal ex_p; IPart 1 (1%N, 70%N) 0%N (Some ex_b);
+    ex2_vote PREVOTE ex2_B 0; ex2_vote PREVOTE ex2_B 1; ex2_vote PREVOTE ex2_B 2;
+    ex2_vote PRECOMMIT ex2_B 0; ex2_vote PRECOMMIT ex2_B 1; ex2_vote PRECOMMIT None 3;
+    ITimeout {| ti_height := 1; ti_round := 0; ti_step := SPrecommitWait |} ].
+Definition ex2_start (i : Z) : cstate := fst (run (ex2_env i) (init_state (ex2_env i) 1 None) ex2_prefix).
+Definition ex2_machine (i : nat) : machine :=
+  {| m_idx := i; m_env := ex2_env (Z.of_nat i); m_state := ex2_start (Z.of_nat i) |}.
+Definition ex2_ms : list machine := [ex2_machine 0; ex2_machine 1; ex2_machine 2].
+Definition ex2_p : proposal :=
+  {| pr_height := 1; pr_round := 1; pr_polr := 0; pr_bid := (7%N, (1%N, 70%N)); pr_signer := 1; pr_sigvalid := true |}.
+Definition is_decide1 (o : output) : bool := match o with ODecide 1 1 7%N => true | _ => false end.
+
+Example ex2_locked_states :
+  map (fun m => (cs_round (m_state m), cs_step (m_state m), cs_lround (m_state m), cs_lblock (m_state m), cs_proposal (m_state m)))
+      ex2_ms =
+  [(1, SPropose, 0, Some ex_b, None); (1, SPropose, 0, Some ex_b, None); (1, SPropose, 0, Some ex_b, None)].
+Proof. vm_compute. reflexivity. Qed.
+
+Example ex2_all_decide :
+  forallb (fun m => existsb is_decide1
+                      (concat (snd (run (m_env m) (m_state m) (schedule ex_vals 1 ex2_p ex_b (1%N, 70%N) ex_sig ex_peer ex2_ms)))))
+          ex2_ms = true.
+Proof. vm_compute. reflexivity. Qed.
+
+Example ex2_ready : forall m, In m ex2_ms ->
+  ready (m_env m) 1 1 ex2_p ex_b 7%N (1%N, 70%N) (map m_idx ex2_ms) ex_vals (m_state m).
+Proof.
+  assert (RO : forall ty, round_open 1 1 7%N (1%N, 70%N) [0%nat; 1%nat; 2%nat] ex_vals ty (new_voteset 1 1 ty ex_vals)).
+  { intro ty. split; [apply new_voteset_open; vm_compute; discriminate|].
+    split; [repeat split|]. split; [reflexivity|]. split; [reflexivity|]. vm_compute. discriminate. }
+  intros m [<-|[<-|[<-|[]]]]; (split; [|right; vm_compute; repeat split]);
+    (split; [reflexivity|]); (split; [reflexivity|]); (split; [reflexivity|]); (split; [vm_compute; discriminate|]);
+    (split; [reflexivity|]); (split; [left; reflexivity|]);
+    (split; [unfold good_proposal; vm_compute; repeat split; try discriminate; right; reflexivity|]);
+    (split; [vm_compute; split; discriminate|]);
+    exists (new_voteset 1 1 PREVOTE ex_vals), (new_voteset 1 1 PRECOMMIT ex_vals);
+    (split; [vm_compute; reflexivity|]); split; apply RO.
+Qed.
